@@ -75,7 +75,7 @@ DISALLOWED = [RSA + "md5", RSA + "ripemd160", "http://www.w3.org/2000/09/xmldsig
 UNKNOWN = ["foo", "", ALLOWED[0] + " ", " " + ALLOWED[2], ALLOWED[2].upper(), ALLOWED[0].replace("rsa-sha1", "RSA-SHA1"),
            ALLOWED[2] + "#", ALLOWED[2][:-1], "rsa-sha256", ALLOWED[2].replace("http://", "https://"), ALLOWED[4] + "\n"]
 DIGESTS = {"sha1": hashes.SHA1, "sha224": hashes.SHA224, "sha256": hashes.SHA256, "sha384": hashes.SHA384,
-           "sha512": hashes.SHA512}
+           "sha512": hashes.SHA512, "md5": hashes.MD5}
 DIGEST_OF = dict(zip(ALLOWED, ["sha1", "sha224", "sha256", "sha384", "sha512"]))
 KEYS = ["sp", "sp2", "idp_sign", "idp_sign2", "idp2", "member2", "attacker"]
 
@@ -246,7 +246,7 @@ def _observe_sign(case, exc, info, captured):
     if exc is not None:
         return {"r": "refused"}
     q = _query_of(info, case["location"])
-    pairs = parse_qsl(q, keep_blank_values=True, strict_parsing=False, encoding="utf-8", errors="strict")
+    pairs = parse_qsl(q, keep_blank_values=True, strict_parsing=False, encoding="utf-8", errors="replace")
     signed = None
     cands = []
     hint = None
@@ -412,6 +412,7 @@ def mutate(rng, src, q, pairs):
         "dup:first", "dup:last", "reenc:same-values", "reenc:plus-becomes-space", "reenc:double", "sig:attacker-key",
         "sig:other-digest", "sig:other-order", "sig:without-relaystate", "sig:spliced", "sig:junk", "sig:bad-base64",
         "sig:same-octets-other-text", "sig:noncanonical-tail", "add:extra", "message:other-signed",
+        "resign:md5", "resign:unknown-alg",
     ])
     if kind == "none":
         return d, kind
@@ -480,6 +481,14 @@ def mutate(rng, src, q, pairs):
         i = q.find("%")
         q2 = q[:i] + "%25" + q[i + 1:]
         d = dict(parse_qsl(q2, keep_blank_values=True))
+    elif kind == "resign:md5":  # the signer itself re-signs with an algorithm outside the list
+        d["SigAlg"] = RSA + "md5"
+        sig = ref_sign(src["key"], "md5", ref_octets(typ, d[typ], d.get("RelayState"), d["SigAlg"]))
+        d["Signature"] = base64.b64encode(sig).decode("ascii")
+    elif kind == "resign:unknown-alg":  # ... or announces an unknown algorithm and signs with a common digest
+        d["SigAlg"] = rng.choice(UNKNOWN + DISALLOWED[1:])
+        sig = ref_sign(src["key"], rng.choice(["sha1", "sha256"]), ref_octets(typ, d[typ], d.get("RelayState"), d["SigAlg"]))
+        d["Signature"] = base64.b64encode(sig).decode("ascii")
     elif kind.startswith("sig:"):
         rs = d.get("RelayState")
         good = ref_octets(typ, d[typ], rs, d["SigAlg"])
@@ -487,7 +496,7 @@ def mutate(rng, src, q, pairs):
         if kind == "sig:attacker-key":
             sig = ref_sign(rng.choice([k for k in KEYS if k != src["key"]]), dn, good)
         elif kind == "sig:other-digest":
-            sig = ref_sign(src["key"], rng.choice([x for x in DIGESTS if x != dn]), good)
+            sig = ref_sign(src["key"], rng.choice([x for x in DIGESTS if x != dn and x != "md5"]), good)
         elif kind == "sig:other-order":
             sig = ref_sign(src["key"], dn, ref_octets(typ, d[typ], rs, d["SigAlg"], order=rng.choice([[2, 1, 0], [1, 0, 2], [0, 2, 1]]) if rs is not None else [1, 0]))
         elif kind == "sig:without-relaystate":
@@ -592,7 +601,7 @@ def gen_server_case(rng, i, xml):
 
 def gen_cases(rng, tier):
     setup()
-    n_sign, n_url, per_url, n_srv = (450, 220, 7, 450) if tier == "quick" else (5000, 2500, 8, 4000)
+    n_sign, n_url, per_url, n_srv = (1500, 600, 8, 1500) if tier == "quick" else (16000, 8000, 9, 16000)
     # signer side: the whole small product of (direction, allowed algorithm) first, then random
     i = 0
     for typ in ("SAMLRequest", "SAMLResponse"):
@@ -602,6 +611,15 @@ def gen_cases(rng, tier):
                 msg = "<m n=\"%d\"/>" % i
                 yield {"op": "sign", "via": "pack", "key": "sp", "typ": typ, "message": msg, "value": deflate_b64(msg),
                        "relay_state": rs, "sign": True, "sigalg": alg, "location": LOCATIONS[0]}
+    # every relay state of the pool under every allowed algorithm, both directions
+    for typ in ("SAMLRequest", "SAMLResponse"):
+        for alg in ALLOWED:
+            for rs in RELAY:
+                i += 1
+                msg = "<m n=\"%d\"/>" % i
+                yield {"op": "sign", "via": "pack", "key": "idp_sign", "typ": typ, "message": msg,
+                       "value": deflate_b64(msg), "relay_state": rs, "sign": True, "sigalg": alg,
+                       "location": LOCATIONS[1]}
     for _ in range(n_sign):
         i += 1
         yield gen_sign_case(rng, i)
